@@ -583,6 +583,7 @@ def text_solver_cases(rep, rng, n):
             k = [0]
             nnew = [0]
             sat = [False]
+            live = [set()]
 
             def do(op):
                 k[0] += 1
@@ -591,6 +592,7 @@ def text_solver_cases(rep, rng, n):
                     was_sat, sat[0] = sat[0], False
                 if op == 'assert':
                     solver.add_assertion(mgr.Or(a, mgr.Not(b)))
+                    live[-1].update([a, b])
                 elif op == 'assert_new':
                     # a symbol first used at this level
                     nnew[0] += 1
@@ -600,22 +602,34 @@ def text_solver_cases(rep, rng, n):
                     lv = 2 if op == 'push2' else 1
                     solver.push(lv)
                     depth[0] += lv
+                    for _ in range(lv):
+                        live.append(set())
                 elif op == 'pop':
                     if depth[0] > 0:
                         solver.pop()
                         depth[0] -= 1
+                        live.pop()
                 elif op == 'reset':
                     solver.reset_assertions()
                     depth[0] = 0
+                    del live[1:]
+                    live[0].clear()
                 elif op == 'solve':
                     r = solver.solve()
                     sat[0] = bool(r)
                     return r
                 elif op == 'get_value':
-                    if sat[0]:
-                        # (the value itself may legitimately depend on the
-                        # order of the declarations)
-                        return solver.get_value(a).is_constant()
+                    # of a symbol of a live assertion of this history (a
+                    # failing add_assertion may have declared its symbols to
+                    # the solver before failing: asking for the value of a
+                    # symbol that only such a call mentioned is outside
+                    # what the twins can be compared on; the value itself
+                    # may legitimately depend on the order of declarations)
+                    cands = sorted(set().union(*live),
+                                   key=lambda s_: s_.symbol_name())
+                    if sat[0] and cands:
+                        return solver.get_value(
+                            cands[k[0] % len(cands)]).is_constant()
                 return None
 
             def fail():
